@@ -216,6 +216,18 @@ def item_for(idx, members):
         lines.append("static_assert(au::AreUnitsQuantityEquivalent<C, au::CommonUnitT<%s, au::CommonUnitT<%s>>>::value, \"nesting (right)\");" % (ts[0], ", ".join(ts[1:])))
     else:
         lines.append("static_assert(au::AreUnitsQuantityEquivalent<C, au::CommonUnitT<au::CommonUnitT<%s, %s>, %s>>::value, \"nesting\");" % (ts[0], ts[1], ts[0]))
+    # two common units side by side (each may be a genuine multi-element CommonUnit<...>): the lists
+    # are merged, not re-inserted element by element
+    if len(ts) >= 3:
+        if len(ts) == 3:
+            splits = [((ts[0], ts[1]), (ts[2], ts[0])), ((ts[0], ts[2]), (ts[1], ts[2])), ((ts[1], ts[2]), (ts[0], ts[1]))]
+        else:
+            splits = [((ts[0], ts[1]), (ts[2], ts[3])), ((ts[0], ts[3]), (ts[1], ts[2])), ((ts[2], ts[0], ts[1]), (ts[3], ts[1]))]
+        for (a, b) in splits:
+            assert set(a) | set(b) == set(ts)
+            A, B = "au::CommonUnitT<%s>" % ", ".join(a), "au::CommonUnitT<%s>" % ", ".join(b)
+            lines.append("static_assert(au::AreUnitsQuantityEquivalent<C, au::CommonUnitT<%s, %s>>::value, \"nesting (two common units)\");" % (A, B))
+            lines.append("static_assert(std::is_same<au::CommonUnitT<%s, %s>, au::CommonUnitT<%s, %s>>::value, \"nested common units commute\");" % (A, B, B, A))
     # std::common_type of quantities
     lines.append("static_assert(std::is_same<std::common_type_t<au::Quantity<%s, int>, au::Quantity<%s, double>>, au::Quantity<au::CommonUnitT<%s, %s>, double>>::value, \"common_type\");" % (ts[0], ts[1], ts[0], ts[1]))
     lines.append("static_assert(std::is_same<std::common_type_t<au::Quantity<%s, std::int16_t>, au::Quantity<%s, std::int64_t>>, au::Quantity<au::CommonUnitT<%s, %s>, std::int64_t>>::value, \"common_type (other order)\");" % (ts[1], ts[0], ts[0], ts[1]))
